@@ -10,6 +10,7 @@ RULE = ('the histories of C02 (seeded random API histories, all op kinds/paramet
         'model key recoverable raw; at the end of every history (thorough: also every 6th step) the bash recovery script extracted from docs/pages/design.md is run on '
         'sampled packed objects. Distinct by (configuration, op kinds+flags); non-trivial with >= 3 op kinds.')
 ASSUMPTIONS = ['zlib-flate (qpdf, not installed) in the documented script is replaced by a 2-line python zlib filter',
+               'the sqlite3 shell is taken from PATH or well-known locations; if the image has none, a stand-in on Python\'s sqlite3 module prints the row (counted separately)',
                'object sizes <= 1.3 MiB']
 MONITORS = ['raw', 'recovery']
 TECHNIQUE = 'runtime monitoring: library-independent raw reader (sqlite3+slice+zlib) and the documented recovery script after every step of generated histories'
